@@ -190,5 +190,5 @@ def obligations(tier):
             if t == "cyc4" or (tier == "quick" and again and t == "cyc3r"):
                 continue
             obs.append(Obligation(PROP, f"cycle[{t}{',set+again' if again else ''}]", __name__, "ob_cycle", (t, again),
-                                  timeout=400 if tier == "quick" else 2400, float_mode="real", group="cycle"))
+                                  sig="b: int, it: int, tol: float, b2: int", timeout=400 if tier == "quick" else 2400, float_mode="real", group="cycle"))
     return obs
